@@ -112,6 +112,15 @@ pub fn op_kinds<F: Family>(p: &Program<F>) -> Vec<String> {
                 GOp::ScopeEnd => {
                     s.insert("ScopeEnd".into());
                 }
+                GOp::Abort(_) => {
+                    s.insert("Abort".into());
+                }
+                GOp::Detach(_) => {
+                    s.insert("Detach".into());
+                }
+                GOp::IsFinished(_) => {
+                    s.insert("IsFinished".into());
+                }
             }
         }
     }
